@@ -170,6 +170,15 @@ def lbufSave (ed : Ed) (lb : Lb) (b : Nat) (e : Int) (path : Bytes) (force : Boo
 /-! ### the buffer table -/
 def normPath (p : Bytes) : Bytes := if p == [47] then [] else p
 
+
+/-- `lbuf_save` on a path that may be empty (a buffer without a name): `open("")` fails with "no such file"; the two
+    guards before the open cannot fire, because `stat("")` fails as well -/
+def lbufSaveP (ed : Ed) (lb : Lb) (b : Nat) (e : Int) (path : Bytes) (force : Bool) (ts : Int) : R (Option Bytes) :=
+  if path.isEmpty then
+    let (fo, ed) := ed.nextFault
+    some (some (strOf "write failed: cannot create file"), if fo == 101 then { ed with fired := ed.fired + 1 } else ed)
+  else lbufSave ed lb b e path force ts
+
 /-- `bufs_find(path)` -/
 def Ed.bufsFind (ed : Ed) (p : Bytes) : Int :=
   let p := normPath p
